@@ -51,7 +51,7 @@ def cases(tier, rng):
     i = 0
     for s in DOC_SERVER:
         i += 1
-        for form in ("json", "yaml"):
+        for form in ("json", "yaml", "flag"):      # (flag: the --server option, which takes the same text)
             add("server", form, s + loc(s, i), "1" if form == "json" else "0")
     for s in ("ws", "wss", "http+tls", "ws+tls", "stdio", "stdio+tls", "unixpacket+tls", "udp4", "dns", "dns+tcp+tls"):
         i += 1
